@@ -193,6 +193,11 @@ def run_check(prop, tier, seed, bounded=True):
             used = obs[0]
             tried = []
             for o in obs[:6]:
+                if hasattr(pm, 'replay') and o['fuc'].startswith('lemma:'):
+                    rep = pm.replay(obs)
+                    tried.append({'function': o['fuc'], 'native_replay': rep})
+                    used = o
+                    break
                 rep = try_native_replay(prop, o, o['fuc'])
                 tried.append({'function': o['fuc'], 'model': o.get('model'), 'native_replay': rep})
                 used = o
@@ -272,6 +277,7 @@ def run_check(prop, tier, seed, bounded=True):
             'exhaustive': False,
         },
         'assumptions': getattr(pm, 'ASSUMPTIONS', []),
+        'extracted': getattr(pm, '_STATE', {}).get('skeleton'),
     }
     if bres and isinstance(bres, dict):
         ev['coverage']['evaluations'] = int(bres.get('cases', 0))
